@@ -18,7 +18,7 @@ from ..tvgen import GenCfg, P, erase, to_json
 
 RULE = (
     "every (class, attribute) whose flattened metamodel type is directly integer/uinteger (structures, plus "
-    "ResponseError.code) x the boundary set {min-1,min,min+1,-1,0,1,max-1,max,max+1,+-2^32,+-2^63} exhaustively and "
+    "ResponseError.code) x the boundary set {min-1,min,min+1,-1,0,1,max-1,max,max+1,+-2^32,+-2^63,2^64,+-10^30} exhaustively and "
     "random ints, each inside a generated valid surrounding object, through the constructor and through the converter "
     "(constructor also with the number wrapped in an int subclass or given as a member of the package's integer enumerations); "
     "oracle: accepted <=> in range, same verdict at both entry points. The two validator functions are also driven "
@@ -47,7 +47,7 @@ def int_enum_members(sub) -> List[Any]:
 
 
 def boundary(lo: int, hi: int) -> List[int]:
-    return sorted({lo - 1, lo, lo + 1, -1, 0, 1, hi - 1, hi, hi + 1, 2**32, -(2**32), 2**63, -(2**63)})
+    return sorted({lo - 1, lo, lo + 1, -1, 0, 1, hi - 1, hi, hi + 1, 2**32, -(2**32), 2**63, -(2**63), 2**64, 10**30, -(10**30)})
 
 
 def targets(sub) -> List[tuple]:
